@@ -2,6 +2,7 @@ package main
 
 import (
 	"fmt"
+	"go/token"
 	"go/types"
 	"sort"
 	"strings"
@@ -284,31 +285,72 @@ func checkC05(c *Ctx) {
 		c.Missing("rr-modulo-same-slice", construct)
 	} else {
 		ok, detail := false, "no element is selected by cursor modulo length"
-		instrsOf(rr, func(in ssa.Instruction) {
-			ia, isIA := in.(*ssa.IndexAddr)
-			if !isIA {
+		// selection sites: the indexed loads that can reach a return
+		var sites []*ssa.IndexAddr
+		seenV := map[ssa.Value]bool{}
+		var walk func(v ssa.Value)
+		walk = func(v ssa.Value) {
+			v = stripConv(v)
+			if seenV[v] {
 				return
 			}
+			seenV[v] = true
+			switch x := v.(type) {
+			case *ssa.Phi:
+				for _, e := range x.Edges {
+					walk(e)
+				}
+			case *ssa.UnOp:
+				if ia, isIA := x.X.(*ssa.IndexAddr); isIA {
+					sites = append(sites, ia)
+				}
+				if cell, isCell := x.X.(*ssa.Alloc); isCell && cell.Referrers() != nil {
+					// result spilled around the deferred unlock
+					for _, u := range *cell.Referrers() {
+						if st, isSt := u.(*ssa.Store); isSt && st.Addr == ssa.Value(cell) {
+							walk(st.Val)
+						}
+					}
+				}
+			}
+		}
+		instrsOf(rr, func(in ssa.Instruction) {
+			if r, isRet := in.(*ssa.Return); isRet {
+				for _, v := range r.Results {
+					walk(v)
+				}
+			}
+		})
+		nOK := 0
+		for _, ia := range sites {
 			idx, isBin := stripConv(ia.Index).(*ssa.BinOp)
 			if !isBin || idx.Op.String() != "%" {
-				return
+				detail = p.InstrPos(ia) + ": a backend is selected by something other than cursor modulo length"
+				continue
 			}
 			add, isCall := stripConv(idx.X).(*ssa.Call)
 			if !isCall || CalleeName(add) != "sync/atomic.AddUint64" {
 				detail = "the rotation cursor is not advanced with atomic.AddUint64"
-				return
+				continue
 			}
 			if k, isK := constInt(add.Call.Args[1]); !isK || k != 1 {
 				detail = "the cursor does not advance by exactly 1 per pick"
-				return
+				continue
 			}
 			ln, isLen := stripConv(idx.Y).(*ssa.Call)
 			if !isLen || CalleeName(ln) != "builtin:len" || !c.sameSlice(rr, ln.Call.Args[0], ia.X) {
 				detail = "the cursor is reduced modulo the length of a different slice than the one indexed (out-of-range panic or skipped backends after a membership change)"
-				return
+				continue
 			}
-			ok = true
-		})
+			nOK++
+		}
+		ok = len(sites) > 0 && nOK == len(sites)
+		for i := 1; ok && i < len(sites); i++ {
+			if !c.sameSlice(rr, sites[0].X, sites[i].X) {
+				ok = false
+				detail = p.InstrPos(sites[i]) + ": one cursor rotates over two different lists (" + p.Desc(sites[0].X, nil) + " and " + p.Desc(sites[i].X, nil) + "): consecutive picks are no longer one-each over the eligible backends"
+			}
+		}
 		c.Check(ok, "rr-modulo-same-slice", construct, p.Pos(rr.Pos()), "backends[atomic.AddUint64(&current,1) % len(backends)] over one slice value", detail)
 	}
 
@@ -608,6 +650,55 @@ func checkC06(c *Ctx) {
 		}
 		if fields["RemoteAddr"] && !split {
 			bad = append(bad, "RemoteAddr is hashed with its port: the same client maps to different backends per connection")
+		}
+		// … and the raw RemoteAddr (port included) is used only where SplitHostPort refused it
+		for f := range seen {
+			var errBlocks []*ssa.BasicBlock
+			instrsOf(f, func(in ssa.Instruction) {
+				ifi, ok := in.(*ssa.If)
+				if !ok {
+					return
+				}
+				r := p.RelOf(ifi.Cond, true, nil)
+				if !r.OK || !strings.Contains(r.X, "net.SplitHostPort(") || !strings.HasSuffix(r.X, "#2") || r.Lo != 0 || r.Hi != 0 {
+					return
+				}
+				if r.Neq { // err != nil
+					errBlocks = append(errBlocks, ifi.Block().Succs[0])
+				} else { // err == nil
+					errBlocks = append(errBlocks, ifi.Block().Succs[1])
+				}
+			})
+			instrsOf(f, func(in ssa.Instruction) {
+				ld, ok := in.(*ssa.UnOp)
+				if !ok || ld.Op != token.MUL || !strings.HasSuffix(p.Desc(ld, nil), "http.Request.RemoteAddr") {
+					return
+				}
+				onlySplit := ld.Referrers() != nil && len(*ld.Referrers()) > 0
+				if ld.Referrers() != nil {
+					for _, u := range *ld.Referrers() {
+						ci, isCall := u.(ssa.CallInstruction)
+						if _, dbg := u.(*ssa.DebugRef); dbg {
+							continue
+						}
+						if !isCall || CalleeName(ci) != "net.SplitHostPort" {
+							onlySplit = false
+						}
+					}
+				}
+				if onlySplit {
+					return
+				}
+				guarded := false
+				for _, eb := range errBlocks {
+					if len(eb.Preds) == 1 && eb.Dominates(ld.Block()) {
+						guarded = true
+					}
+				}
+				if !guarded {
+					bad = append(bad, p.InstrPos(ld)+": the raw RemoteAddr (address:port) can reach the hash key although it is splittable: the same client maps to different backends per connection")
+				}
+			})
 		}
 		sort.Strings(bad)
 		if len(bad) == 0 {
